@@ -115,6 +115,20 @@ Theorem C14_at_relative_help_examples :
 Proof. exact at_relative_help_example. Qed.
 Print Assumptions C14_at_relative_help_examples.
 
+Theorem C14_at_relative_keeps_fraction_examples :
+  CliDtMiscProofs.m_bounds (Some (cs "2020-01-02T03:04:05.678")) (Some (cs "@+1s")) 0 1700000000
+  = Some (Some 1577934245678000000, Some 1577934246678000000)
+  /\ CliDtMiscProofs.m_bounds (Some (cs "2020-01-02T03:04:05.678")) (Some (cs "@+0s")) 0 1700000000
+     = Some (Some 1577934245678000000, Some 1577934245678000000)
+  /\ CliDtMiscProofs.m_bounds (Some (cs "2020-01-02T03:04:05.999999")) (Some (cs "@+90s")) 0 1700000000
+     = Some (Some 1577934245999999000, Some 1577934335999999000)
+  /\ CliDtMiscProofs.m_bounds (Some (cs "@-2s")) (Some (cs "2020-01-02 03:04:05.500 +05:30")) 0 1700000000
+     = Some (Some 1577914443500000000, Some 1577914445500000000)
+  /\ CliDtMiscProofs.m_bounds (Some (cs "@-1h2m3s")) (Some (cs "20200102T030405.001")) (-12600) 1700000000
+     = CliDtMiscProofs.m_bounds (Some (cs "20200102T020202.001")) (Some (cs "20200102T030405.001")) (-12600) 1700000000.
+Proof. exact at_relative_keeps_fraction. Qed.
+Print Assumptions C14_at_relative_keeps_fraction_examples.
+
 Theorem C14_spec_at_relative :
   forall f items tz now x,
     is_at (Some f) = false -> denote f tz now None = Some x ->
